@@ -424,6 +424,17 @@ class NP(_Stub):
             return _forall_arr(x)
         return _c(x).all()
 
+    def any(self, x):
+        """trusted: any(x) <=> some element is non-zero / true  (= not all elements are zero / false)"""
+        _use("numpy.any")
+        if isinstance(x, SArr):
+            def zero(v):
+                if isinstance(v, _np.ndarray):
+                    return sand(*[zero(e) for e in v.flat])
+                return snot(v) if isinstance(v, (SB, bool)) else (v == 0)
+            return snot(_forall_arr(x, zero))
+        return _c(x).any()
+
     def argmin(self, x):
         """trusted: first index of a minimal element"""
         _use("numpy.argmin")
@@ -605,14 +616,16 @@ def unit_conversion_meaning():
             c.axiom(y * pi.t == t * 180, "rad2deg.def")
 
 
-def _forall_arr(x):
-    """Bool: every element of a boolean SArr is true (as a quantified formula)"""
+def _forall_arr(x, pred=None):
+    """Bool: every element of a boolean SArr is true -- or satisfies `pred` -- (as a quantified formula)"""
     n = x.shape[0]
     k = cur().fresh("int", "k!all")
     c = cur()
     c.quiet += 1
     try:
         body = x._cell[0](k)
+        if pred is not None:
+            body = pred(body)
     finally:
         c.quiet -= 1
     if isinstance(body, _np.ndarray):
